@@ -1,1 +1,741 @@
-fn main(){}
+//! refevm-vectors: run execution-spec state-test vectors against refevm.
+//!
+//! usage: refevm-vectors <dir-or-file>... [--fork X] [--filter substr] [--limit N]
+//!                       [--sample K/SEED] [--debug] [--trace]
+use primitive_types::U256;
+use refevm::*;
+use serde_json::Value;
+use std::cell::Cell;
+use std::collections::BTreeMap;
+use std::path::{Path, PathBuf};
+
+/// Vectors that encode the superseded devnet-5 EXTCODE* rule for delegated accounts
+/// (size 2 / keccak(0xef01)); refevm implements the final EIP-7702 rule (23-byte designator).
+const EXPECTED_FAIL_FILES: [&str; 4] = [
+    "ext_code_on_chain_delegating_set_code.json",
+    "ext_code_on_self_delegating_set_code.json",
+    "ext_code_on_self_set_code.json",
+    "ext_code_on_set_code.json",
+];
+
+// ----- natively implemented precompiles ---------------------------------------------------------
+
+fn sha256(data: &[u8]) -> [u8; 32] {
+    const K: [u32; 64] = [
+        0x428a2f98, 0x71374491, 0xb5c0fbcf, 0xe9b5dba5, 0x3956c25b, 0x59f111f1, 0x923f82a4, 0xab1c5ed5, 0xd807aa98,
+        0x12835b01, 0x243185be, 0x550c7dc3, 0x72be5d74, 0x80deb1fe, 0x9bdc06a7, 0xc19bf174, 0xe49b69c1, 0xefbe4786,
+        0x0fc19dc6, 0x240ca1cc, 0x2de92c6f, 0x4a7484aa, 0x5cb0a9dc, 0x76f988da, 0x983e5152, 0xa831c66d, 0xb00327c8,
+        0xbf597fc7, 0xc6e00bf3, 0xd5a79147, 0x06ca6351, 0x14292967, 0x27b70a85, 0x2e1b2138, 0x4d2c6dfc, 0x53380d13,
+        0x650a7354, 0x766a0abb, 0x81c2c92e, 0x92722c85, 0xa2bfe8a1, 0xa81a664b, 0xc24b8b70, 0xc76c51a3, 0xd192e819,
+        0xd6990624, 0xf40e3585, 0x106aa070, 0x19a4c116, 0x1e376c08, 0x2748774c, 0x34b0bcb5, 0x391c0cb3, 0x4ed8aa4a,
+        0x5b9cca4f, 0x682e6ff3, 0x748f82ee, 0x78a5636f, 0x84c87814, 0x8cc70208, 0x90befffa, 0xa4506ceb, 0xbef9a3f7,
+        0xc67178f2,
+    ];
+    let mut h: [u32; 8] =
+        [0x6a09e667, 0xbb67ae85, 0x3c6ef372, 0xa54ff53a, 0x510e527f, 0x9b05688c, 0x1f83d9ab, 0x5be0cd19];
+    let mut msg = data.to_vec();
+    msg.push(0x80);
+    while msg.len() % 64 != 56 {
+        msg.push(0);
+    }
+    msg.extend_from_slice(&((data.len() as u64) * 8).to_be_bytes());
+    for chunk in msg.chunks(64) {
+        let mut w = [0u32; 64];
+        for i in 0..16 {
+            w[i] = u32::from_be_bytes([chunk[4 * i], chunk[4 * i + 1], chunk[4 * i + 2], chunk[4 * i + 3]]);
+        }
+        for i in 16..64 {
+            let s0 = w[i - 15].rotate_right(7) ^ w[i - 15].rotate_right(18) ^ (w[i - 15] >> 3);
+            let s1 = w[i - 2].rotate_right(17) ^ w[i - 2].rotate_right(19) ^ (w[i - 2] >> 10);
+            w[i] = w[i - 16].wrapping_add(s0).wrapping_add(w[i - 7]).wrapping_add(s1);
+        }
+        let mut v = h;
+        for i in 0..64 {
+            let s1 = v[4].rotate_right(6) ^ v[4].rotate_right(11) ^ v[4].rotate_right(25);
+            let ch = (v[4] & v[5]) ^ (!v[4] & v[6]);
+            let t1 = v[7].wrapping_add(s1).wrapping_add(ch).wrapping_add(K[i]).wrapping_add(w[i]);
+            let s0 = v[0].rotate_right(2) ^ v[0].rotate_right(13) ^ v[0].rotate_right(22);
+            let maj = (v[0] & v[1]) ^ (v[0] & v[2]) ^ (v[1] & v[2]);
+            let t2 = s0.wrapping_add(maj);
+            v = [t1.wrapping_add(t2), v[0], v[1], v[2], v[3].wrapping_add(t1), v[4], v[5], v[6]];
+        }
+        for i in 0..8 {
+            h[i] = h[i].wrapping_add(v[i]);
+        }
+    }
+    let mut out = [0u8; 32];
+    for i in 0..8 {
+        out[4 * i..4 * i + 4].copy_from_slice(&h[i].to_be_bytes());
+    }
+    out
+}
+
+fn ripemd160(data: &[u8]) -> [u8; 20] {
+    const RL: [usize; 80] = [
+        0, 1, 2, 3, 4, 5, 6, 7, 8, 9, 10, 11, 12, 13, 14, 15, 7, 4, 13, 1, 10, 6, 15, 3, 12, 0, 9, 5, 2, 14, 11, 8, 3,
+        10, 14, 4, 9, 15, 8, 1, 2, 7, 0, 6, 13, 11, 5, 12, 1, 9, 11, 10, 0, 8, 12, 4, 13, 3, 7, 15, 14, 5, 6, 2, 4, 0,
+        5, 9, 7, 12, 2, 10, 14, 1, 3, 8, 11, 6, 15, 13,
+    ];
+    const RR: [usize; 80] = [
+        5, 14, 7, 0, 9, 2, 11, 4, 13, 6, 15, 8, 1, 10, 3, 12, 6, 11, 3, 7, 0, 13, 5, 10, 14, 15, 8, 12, 4, 9, 1, 2, 15,
+        5, 1, 3, 7, 14, 6, 9, 11, 8, 12, 2, 10, 0, 4, 13, 8, 6, 4, 1, 3, 11, 15, 0, 5, 12, 2, 13, 9, 7, 10, 14, 12, 15,
+        10, 4, 1, 5, 8, 7, 6, 2, 13, 14, 0, 3, 9, 11,
+    ];
+    const SL: [u32; 80] = [
+        11, 14, 15, 12, 5, 8, 7, 9, 11, 13, 14, 15, 6, 7, 9, 8, 7, 6, 8, 13, 11, 9, 7, 15, 7, 12, 15, 9, 11, 7, 13, 12,
+        11, 13, 6, 7, 14, 9, 13, 15, 14, 8, 13, 6, 5, 12, 7, 5, 11, 12, 14, 15, 14, 15, 9, 8, 9, 14, 5, 6, 8, 6, 5, 12,
+        9, 15, 5, 11, 6, 8, 13, 12, 5, 12, 13, 14, 11, 8, 5, 6,
+    ];
+    const SR: [u32; 80] = [
+        8, 9, 9, 11, 13, 15, 15, 5, 7, 7, 8, 11, 14, 14, 12, 6, 9, 13, 15, 7, 12, 8, 9, 11, 7, 7, 12, 7, 6, 15, 13, 11,
+        9, 7, 15, 11, 8, 6, 6, 14, 12, 13, 5, 14, 13, 13, 7, 5, 15, 5, 8, 11, 14, 14, 6, 14, 6, 9, 12, 9, 12, 5, 15, 8,
+        8, 5, 12, 9, 12, 5, 14, 6, 8, 13, 6, 5, 15, 13, 11, 11,
+    ];
+    const KL: [u32; 5] = [0x00000000, 0x5a827999, 0x6ed9eba1, 0x8f1bbcdc, 0xa953fd4e];
+    const KR: [u32; 5] = [0x50a28be6, 0x5c4dd124, 0x6d703ef3, 0x7a6d76e9, 0x00000000];
+    fn f(j: usize, x: u32, y: u32, z: u32) -> u32 {
+        match j / 16 {
+            0 => x ^ y ^ z,
+            1 => (x & y) | (!x & z),
+            2 => (x | !y) ^ z,
+            3 => (x & z) | (y & !z),
+            _ => x ^ (y | !z),
+        }
+    }
+    let mut h: [u32; 5] = [0x67452301, 0xefcdab89, 0x98badcfe, 0x10325476, 0xc3d2e1f0];
+    let mut msg = data.to_vec();
+    msg.push(0x80);
+    while msg.len() % 64 != 56 {
+        msg.push(0);
+    }
+    msg.extend_from_slice(&((data.len() as u64) * 8).to_le_bytes());
+    for chunk in msg.chunks(64) {
+        let mut x = [0u32; 16];
+        for i in 0..16 {
+            x[i] = u32::from_le_bytes([chunk[4 * i], chunk[4 * i + 1], chunk[4 * i + 2], chunk[4 * i + 3]]);
+        }
+        let (mut al, mut bl, mut cl, mut dl, mut el) = (h[0], h[1], h[2], h[3], h[4]);
+        let (mut ar, mut br, mut cr, mut dr, mut er) = (h[0], h[1], h[2], h[3], h[4]);
+        for j in 0..80 {
+            let t = al
+                .wrapping_add(f(j, bl, cl, dl))
+                .wrapping_add(x[RL[j]])
+                .wrapping_add(KL[j / 16])
+                .rotate_left(SL[j])
+                .wrapping_add(el);
+            al = el;
+            el = dl;
+            dl = cl.rotate_left(10);
+            cl = bl;
+            bl = t;
+            let t = ar
+                .wrapping_add(f(79 - j, br, cr, dr))
+                .wrapping_add(x[RR[j]])
+                .wrapping_add(KR[j / 16])
+                .rotate_left(SR[j])
+                .wrapping_add(er);
+            ar = er;
+            er = dr;
+            dr = cr.rotate_left(10);
+            cr = br;
+            br = t;
+        }
+        let t = h[1].wrapping_add(cl).wrapping_add(dr);
+        h[1] = h[2].wrapping_add(dl).wrapping_add(er);
+        h[2] = h[3].wrapping_add(el).wrapping_add(ar);
+        h[3] = h[4].wrapping_add(al).wrapping_add(br);
+        h[4] = h[0].wrapping_add(bl).wrapping_add(cr);
+        h[0] = t;
+    }
+    let mut out = [0u8; 20];
+    for i in 0..5 {
+        out[4 * i..4 * i + 4].copy_from_slice(&h[i].to_le_bytes());
+    }
+    out
+}
+
+/// Externals of the vectors binary: SHA-256, RIPEMD-160 and identity natively; everything
+/// else fails and flags the case as "used an unsupported precompile".
+struct VectorExternals {
+    unsupported: Cell<bool>,
+    /// Low byte of the first unsupported precompile address that was called.
+    first_unsupported: Cell<u8>,
+}
+
+impl Externals for VectorExternals {
+    fn precompile(&self, _fork: Fork, address: Address, input: &[u8], gas_limit: u64) -> PrecompileResult {
+        let words = (input.len() as u64 + 31) / 32;
+        let (cost, output) = match address[19] {
+            2 => (60 + 12 * words, sha256(input).to_vec()),
+            3 => {
+                let mut out = vec![0u8; 32];
+                out[12..].copy_from_slice(&ripemd160(input));
+                (600 + 120 * words, out)
+            }
+            4 => (15 + 3 * words, input.to_vec()),
+            n => {
+                if !self.unsupported.get() {
+                    self.first_unsupported.set(n);
+                }
+                self.unsupported.set(true);
+                return PrecompileResult::Fail;
+            }
+        };
+        if cost > gas_limit {
+            PrecompileResult::Fail
+        } else {
+            PrecompileResult::Ok { gas_used: cost, output }
+        }
+    }
+}
+
+struct PrintTracer;
+impl Tracer for PrintTracer {
+    fn step(&mut self, depth: usize, pc: usize, op: u8, gas_left: u64, stack: &[U256], mem_len: usize) {
+        let top: Vec<String> = stack.iter().rev().take(8).map(|v| format!("{:#x}", v)).collect();
+        eprintln!("d={} pc={} op={:#04x} gas={} mem={} stack[{}]=[{}]", depth, pc, op, gas_left, mem_len, stack.len(), top.join(","));
+    }
+}
+
+// ----- JSON helpers -----------------------------------------------------------------------------
+
+fn strip0x(s: &str) -> &str {
+    s.strip_prefix("0x").or_else(|| s.strip_prefix("0X")).unwrap_or(s)
+}
+
+fn parse_u256(v: &Value) -> Result<U256, String> {
+    let s = v.as_str().ok_or_else(|| format!("expected string, got {}", v))?;
+    if s.starts_with("0x") || s.starts_with("0X") {
+        let h = strip0x(s);
+        if h.is_empty() {
+            return Ok(U256::zero());
+        }
+        if h.len() > 64 {
+            return Err(format!("number too large: {}", s));
+        }
+        U256::from_str_radix(h, 16).map_err(|e| format!("bad number {}: {:?}", s, e))
+    } else {
+        U256::from_dec_str(s).map_err(|e| format!("bad number {}: {:?}", s, e))
+    }
+}
+
+fn parse_u64(v: &Value) -> Result<u64, String> {
+    let x = parse_u256(v)?;
+    if x > U256::from(u64::MAX) {
+        return Err(format!("does not fit u64: {}", v));
+    }
+    Ok(x.low_u64())
+}
+
+fn parse_bytes(v: &Value) -> Result<Vec<u8>, String> {
+    let s = v.as_str().ok_or_else(|| format!("expected string, got {}", v))?;
+    hex::decode(strip0x(s)).map_err(|e| format!("bad hex: {}", e))
+}
+
+fn parse_address(v: &Value) -> Result<Address, String> {
+    let b = parse_bytes(v)?;
+    if b.len() != 20 {
+        return Err(format!("bad address {}", v));
+    }
+    let mut a = [0u8; 20];
+    a.copy_from_slice(&b);
+    Ok(a)
+}
+
+fn parse_hash(v: &Value) -> Result<Hash, String> {
+    let b = parse_bytes(v)?;
+    if b.len() != 32 {
+        return Err(format!("bad hash {}", v));
+    }
+    let mut a = [0u8; 32];
+    a.copy_from_slice(&b);
+    Ok(a)
+}
+
+fn parse_world(v: &Value) -> Result<World, String> {
+    let mut world = World::new();
+    for (k, acc) in v.as_object().ok_or("pre is not an object")? {
+        let address = parse_address(&Value::String(k.clone()))?;
+        let mut storage = BTreeMap::new();
+        if let Some(st) = acc.get("storage").and_then(|s| s.as_object()) {
+            for (sk, sv) in st {
+                let value = parse_u256(sv)?;
+                if !value.is_zero() {
+                    storage.insert(parse_u256(&Value::String(sk.clone()))?, value);
+                }
+            }
+        }
+        world.insert(
+            address,
+            Account {
+                balance: parse_u256(&acc["balance"])?,
+                nonce: parse_u64(&acc["nonce"])?,
+                code: parse_bytes(&acc["code"])?,
+                storage,
+            },
+        );
+    }
+    Ok(world)
+}
+
+fn fork_by_name(name: &str) -> Option<Fork> {
+    Some(match name {
+        "Frontier" => Fork::Frontier,
+        "Homestead" => Fork::Homestead,
+        "EIP150" => Fork::Tangerine,
+        "EIP158" => Fork::SpuriousDragon,
+        "Byzantium" => Fork::Byzantium,
+        "ConstantinopleFix" | "Petersburg" => Fork::Petersburg,
+        "Istanbul" => Fork::Istanbul,
+        "Berlin" => Fork::Berlin,
+        "London" => Fork::London,
+        "Paris" | "Merge" => Fork::Merge,
+        "Shanghai" => Fork::Shanghai,
+        "Cancun" => Fork::Cancun,
+        "Prague" => Fork::Prague,
+        _ => return None,
+    })
+}
+
+/// secp256k1 group order and its half (EIP-2 / EIP-7702 low-s rule).
+fn secp256k1_n() -> U256 {
+    U256::from_str_radix("fffffffffffffffffffffffffffffffebaaedce6af48a03bbfd25e8cd0364141", 16).unwrap()
+}
+
+fn parse_authorization(v: &Value) -> Result<Authorization, String> {
+    let chain_id = parse_u256(&v["chainId"])?;
+    let address = parse_address(&v["address"])?;
+    let nonce256 = parse_u256(&v["nonce"])?;
+    let y_parity = parse_u256(v.get("v").or_else(|| v.get("yParity")).ok_or("authorization without v")?)?;
+    let r = parse_u256(&v["r"])?;
+    let s = parse_u256(&v["s"])?;
+    let n = secp256k1_n();
+    let signature_well_formed =
+        y_parity <= U256::one() && !r.is_zero() && r < n && !s.is_zero() && s <= n / 2 && nonce256 <= U256::from(u64::MAX);
+    // No ECDSA here: the vectors carry the recovered `signer`; an absent signer means the
+    // signature does not recover.
+    let authority = match v.get("signer") {
+        Some(sg) if signature_well_formed => Some(parse_address(sg)?),
+        _ => None,
+    };
+    Ok(Authorization { chain_id, address, nonce: nonce256.low_u64(), authority })
+}
+
+// ----- running ----------------------------------------------------------------------------------
+
+#[derive(Default, Clone, Copy)]
+struct Tally {
+    passed: usize,
+    failed: usize,
+    skipped: usize,
+    expected_fail: usize,
+}
+
+struct Options {
+    fork: Option<String>,
+    filter: Option<String>,
+    limit: Option<usize>,
+    sample: Option<(u64, u64)>,
+    debug: bool,
+    trace: bool,
+}
+
+fn collect_files(path: &Path, out: &mut Vec<PathBuf>) {
+    if path.is_dir() {
+        let mut entries: Vec<PathBuf> = match std::fs::read_dir(path) {
+            Ok(rd) => rd.filter_map(|e| e.ok().map(|e| e.path())).collect(),
+            Err(_) => return,
+        };
+        entries.sort();
+        for e in entries {
+            collect_files(&e, out);
+        }
+    } else if path.extension().map_or(false, |e| e == "json") {
+        out.push(path.to_path_buf());
+    }
+}
+
+fn fnv(s: &str, seed: u64) -> u64 {
+    let mut h = 0xcbf29ce484222325u64 ^ seed.wrapping_mul(0x9e3779b97f4a7c15);
+    for b in s.bytes() {
+        h ^= b as u64;
+        h = h.wrapping_mul(0x100000001b3);
+    }
+    h ^ (h >> 29)
+}
+
+fn hex0x(b: &[u8]) -> String {
+    format!("0x{}", hex::encode(b))
+}
+
+fn print_world_diff(got: &World, expected: &World) {
+    let mut keys: Vec<&Address> = got.keys().chain(expected.keys()).collect();
+    keys.sort();
+    keys.dedup();
+    for k in keys {
+        match (got.get(k), expected.get(k)) {
+            (Some(g), Some(e)) => {
+                if g == e {
+                    continue;
+                }
+                eprintln!("    account {}:", hex0x(k));
+                if g.balance != e.balance {
+                    eprintln!("      balance got {:#x} expected {:#x} (diff {})", g.balance, e.balance,
+                        if g.balance > e.balance { format!("+{}", g.balance - e.balance) } else { format!("-{}", e.balance - g.balance) });
+                }
+                if g.nonce != e.nonce {
+                    eprintln!("      nonce got {} expected {}", g.nonce, e.nonce);
+                }
+                if g.code != e.code {
+                    eprintln!("      code got {} expected {}", hex0x(&g.code), hex0x(&e.code));
+                }
+                let mut sk: Vec<&U256> = g.storage.keys().chain(e.storage.keys()).collect();
+                sk.sort();
+                sk.dedup();
+                for s in sk {
+                    let (gv, ev) = (g.storage.get(s).copied().unwrap_or_default(), e.storage.get(s).copied().unwrap_or_default());
+                    if gv != ev {
+                        eprintln!("      storage[{:#x}] got {:#x} expected {:#x}", s, gv, ev);
+                    }
+                }
+            }
+            (Some(g), None) => eprintln!("    account {} unexpected: {:?}", hex0x(k), g),
+            (None, Some(e)) => eprintln!("    account {} missing: {:?}", hex0x(k), e),
+            (None, None) => {}
+        }
+    }
+}
+
+enum CaseResult {
+    Pass,
+    Fail(String),
+    /// Skipped because this precompile (low address byte) is not implemented here.
+    Skip(u8),
+}
+
+fn run_case(fork: Fork, unit: &Value, pre: &World, post: &Value, opts: &Options) -> Result<CaseResult, String> {
+    let env = &unit["env"];
+    let txv = &unit["transaction"];
+    let idx = &post["indexes"];
+    let (di, gi, vi) = (
+        idx["data"].as_u64().ok_or("bad index")? as usize,
+        idx["gas"].as_u64().ok_or("bad index")? as usize,
+        idx["value"].as_u64().ok_or("bad index")? as usize,
+    );
+
+    let mut prev_randao = [0u8; 32];
+    if let Some(r) = env.get("currentRandom") {
+        prev_randao = parse_hash(r)?;
+    }
+    let block = Block {
+        number: parse_u64(&env["currentNumber"])?,
+        coinbase: parse_address(&env["currentCoinbase"])?,
+        timestamp: parse_u64(&env["currentTimestamp"])?,
+        gas_limit: parse_u64(&env["currentGasLimit"])?,
+        base_fee: env.get("currentBaseFee").map(parse_u256).transpose()?.unwrap_or_default(),
+        difficulty: env.get("currentDifficulty").map(parse_u256).transpose()?.unwrap_or_default(),
+        prev_randao,
+        excess_blob_gas: env.get("currentExcessBlobGas").map(parse_u64).transpose()?.unwrap_or(0),
+        chain_id: 1,
+        block_hashes: BTreeMap::new(),
+    };
+
+    // The transaction type is the first byte of the signed encoding.
+    let txbytes = post.get("txbytes").map(parse_bytes).transpose()?.unwrap_or_default();
+    let tx_type = match txbytes.first() {
+        Some(1) => TxType::Eip2930,
+        Some(2) => TxType::Eip1559,
+        Some(3) => TxType::Eip4844,
+        Some(4) => TxType::Eip7702,
+        _ => TxType::Legacy,
+    };
+    let to = match txv.get("to").and_then(|t| t.as_str()) {
+        None | Some("") => None,
+        Some(s) => Some(parse_address(&Value::String(s.to_string()))?),
+    };
+    let mut access_list = Vec::new();
+    if let Some(al) = txv.get("accessLists").and_then(|a| a.get(di)).and_then(|a| a.as_array()) {
+        for item in al {
+            let mut keys = Vec::new();
+            for k in item["storageKeys"].as_array().ok_or("bad access list")? {
+                keys.push(parse_u256(k)?);
+            }
+            access_list.push((parse_address(&item["address"])?, keys));
+        }
+    }
+    let mut blob_hashes = Vec::new();
+    if let Some(hs) = txv.get("blobVersionedHashes").and_then(|h| h.as_array()) {
+        for h in hs {
+            blob_hashes.push(parse_hash(h)?);
+        }
+    }
+    let mut authorization_list = Vec::new();
+    if let Some(list) = txv.get("authorizationList").and_then(|a| a.as_array()) {
+        for a in list {
+            authorization_list.push(parse_authorization(a)?);
+        }
+    }
+    let gas_price = match (txv.get("gasPrice"), txv.get("maxFeePerGas")) {
+        (Some(p), _) => parse_u256(p)?,
+        (None, Some(p)) => parse_u256(p)?,
+        _ => U256::zero(),
+    };
+    let gas_limit = parse_u256(&txv["gasLimit"][gi])?;
+    let tx = Tx {
+        tx_type,
+        caller: parse_address(&txv["sender"])?,
+        to,
+        value: parse_u256(&txv["value"][vi])?,
+        data: parse_bytes(&txv["data"][di])?,
+        gas_limit: if gas_limit > U256::from(u64::MAX) { u64::MAX } else { gas_limit.low_u64() },
+        gas_price,
+        max_priority_fee: txv.get("maxPriorityFeePerGas").map(parse_u256).transpose()?,
+        nonce: Some(parse_u64(&txv["nonce"])?),
+        chain_id: Some(1),
+        access_list,
+        blob_hashes,
+        max_fee_per_blob_gas: txv.get("maxFeePerBlobGas").map(parse_u256).transpose()?.unwrap_or_default(),
+        authorization_list,
+    };
+
+    let expected_root = parse_hash(&post["hash"])?;
+    let expected_logs = parse_hash(&post["logs"])?;
+    let expect_exception = post.get("expectException").and_then(|e| e.as_str());
+
+    let ext = VectorExternals { unsupported: Cell::new(false), first_unsupported: Cell::new(0) };
+    let outcome = if opts.trace { execute(fork, &block, pre, &tx, &ext, &mut PrintTracer) } else { execute(fork, &block, pre, &tx, &ext, &mut NoTracer) };
+    if ext.unsupported.get() {
+        return Ok(CaseResult::Skip(ext.first_unsupported.get()));
+    }
+    match (&outcome, expect_exception) {
+        (TxOutcome::Rejected(_), Some(_)) => {
+            let root = state_root(pre);
+            if root == expected_root {
+                Ok(CaseResult::Pass)
+            } else {
+                Ok(CaseResult::Fail("rejected as expected but the pre-state root differs from `hash`".into()))
+            }
+        }
+        (TxOutcome::Rejected(why), None) => Ok(CaseResult::Fail(format!("unexpectedly rejected: {}", why))),
+        (TxOutcome::Executed(_), Some(e)) => Ok(CaseResult::Fail(format!("expected exception {} but executed", e))),
+        (TxOutcome::Executed(ex), None) => {
+            let root = state_root(&ex.post);
+            let lh = logs_hash(&ex.logs);
+            if root == expected_root && lh == expected_logs {
+                return Ok(CaseResult::Pass);
+            }
+            let mut msg = String::new();
+            if root != expected_root {
+                msg += &format!("state root got {} expected {}; ", hex0x(&root), hex0x(&expected_root));
+            }
+            if lh != expected_logs {
+                msg += &format!("logs hash got {} expected {}; ", hex0x(&lh), hex0x(&expected_logs));
+            }
+            msg += &format!("status {:?} gas_used {}", ex.status, ex.gas_used);
+            if opts.debug {
+                eprintln!("  FAIL detail: {}", msg);
+                if let Some(st) = post.get("state") {
+                    if let Ok(expected) = parse_world(st) {
+                        print_world_diff(&ex.post, &expected);
+                    }
+                }
+            }
+            Ok(CaseResult::Fail(msg))
+        }
+    }
+}
+
+fn main() {
+    let mut paths: Vec<PathBuf> = Vec::new();
+    let mut opts = Options { fork: None, filter: None, limit: None, sample: None, debug: false, trace: false };
+    let mut args = std::env::args().skip(1);
+    while let Some(a) = args.next() {
+        match a.as_str() {
+            "--fork" => opts.fork = args.next(),
+            "--filter" => opts.filter = args.next(),
+            "--limit" => opts.limit = args.next().and_then(|s| s.parse().ok()),
+            "--sample" => {
+                let s = args.next().unwrap_or_default();
+                let mut it = s.split('/');
+                let k = it.next().and_then(|x| x.parse().ok()).unwrap_or(1u64).max(1);
+                let seed = it.next().and_then(|x| x.parse().ok()).unwrap_or(0u64);
+                opts.sample = Some((k, seed));
+            }
+            "--debug" => opts.debug = true,
+            "--trace" => opts.trace = true,
+            "-h" | "--help" => {
+                println!("usage: refevm-vectors <dir-or-file>... [--fork X] [--filter substr] [--limit N] [--sample K/SEED] [--debug] [--trace]");
+                return;
+            }
+            _ => paths.push(PathBuf::from(a)),
+        }
+    }
+    if paths.is_empty() {
+        eprintln!("usage: refevm-vectors <dir-or-file>... [--fork X] [--filter substr] [--limit N] [--sample K/SEED] [--debug] [--trace]");
+        std::process::exit(2);
+    }
+    let mut files = Vec::new();
+    for p in &paths {
+        collect_files(p, &mut files);
+    }
+
+    let mut tallies: BTreeMap<Fork, Tally> = BTreeMap::new();
+    let mut failures: Vec<String> = Vec::new();
+    let mut expected_failures: Vec<String> = Vec::new();
+    let mut notes: Vec<String> = Vec::new();
+    let mut ignored_forks: BTreeMap<String, usize> = BTreeMap::new();
+    let mut executed = 0usize;
+    let mut skipped_by_precompile: BTreeMap<u8, usize> = BTreeMap::new();
+    let started = std::time::Instant::now();
+
+    'files: for file in &files {
+        let file_name = file.file_name().and_then(|f| f.to_str()).unwrap_or("").to_string();
+        let text = match std::fs::read_to_string(file) {
+            Ok(t) => t,
+            Err(e) => {
+                notes.push(format!("unreadable file skipped: {} ({})", file.display(), e));
+                continue;
+            }
+        };
+        let suite: Value = match serde_json::from_str(&text) {
+            Ok(v) => v,
+            Err(e) => {
+                notes.push(format!("unparseable file skipped: {} ({})", file.display(), e));
+                continue;
+            }
+        };
+        let suite = match suite.as_object() {
+            Some(o) => o,
+            None => {
+                notes.push(format!("not a test suite, skipped: {}", file.display()));
+                continue;
+            }
+        };
+        let expected_fail_file = EXPECTED_FAIL_FILES.contains(&file_name.as_str());
+        for (name, unit) in suite {
+            if unit.get("post").is_none() || unit.get("transaction").is_none() {
+                notes.push(format!("not a state test, skipped: {} :: {}", file.display(), name));
+                continue;
+            }
+            if unit["transaction"].get("sender").is_none() {
+                notes.push(format!("no `sender` in transaction (would need secretKey derivation), file skipped: {}", file.display()));
+                continue 'files;
+            }
+            let pre = match parse_world(&unit["pre"]) {
+                Ok(w) => w,
+                Err(e) => {
+                    notes.push(format!("bad pre-state, test skipped: {} :: {} ({})", file.display(), name, e));
+                    continue;
+                }
+            };
+            for (fork_name, posts) in unit["post"].as_object().into_iter().flatten() {
+                let fork = match fork_by_name(fork_name) {
+                    Some(f) => f,
+                    None => {
+                        *ignored_forks.entry(fork_name.clone()).or_default() += posts.as_array().map_or(0, |a| a.len());
+                        continue;
+                    }
+                };
+                if let Some(f) = &opts.fork {
+                    if f != fork_name {
+                        continue;
+                    }
+                }
+                for (i, post) in posts.as_array().into_iter().flatten().enumerate() {
+                    let case_id = format!("{} :: {} :: {}[{}]", file.display(), name, fork_name, i);
+                    if let Some(f) = &opts.filter {
+                        if !case_id.contains(f.as_str()) {
+                            continue;
+                        }
+                    }
+                    if let Some((k, seed)) = opts.sample {
+                        if fnv(&case_id, seed) % k != 0 {
+                            continue;
+                        }
+                    }
+                    if let Some(l) = opts.limit {
+                        if executed >= l {
+                            break 'files;
+                        }
+                    }
+                    executed += 1;
+                    if opts.debug || opts.trace {
+                        eprintln!("RUN {}", case_id);
+                    }
+                    let tally = tallies.entry(fork).or_default();
+                    match run_case(fork, unit, &pre, post, &opts) {
+                        Ok(CaseResult::Pass) => tally.passed += 1,
+                        Ok(CaseResult::Skip(n)) => {
+                            tally.skipped += 1;
+                            *skipped_by_precompile.entry(n).or_default() += 1;
+                        }
+                        Ok(CaseResult::Fail(why)) | Err(why) => {
+                            if expected_fail_file {
+                                tally.expected_fail += 1;
+                                expected_failures.push(case_id);
+                            } else {
+                                tally.failed += 1;
+                                failures.push(format!("{}\n      {}", case_id, why));
+                            }
+                        }
+                    }
+                }
+            }
+        }
+    }
+
+    println!("refevm-vectors: {} files, {} cases executed in {:.2}s", files.len(), executed, started.elapsed().as_secs_f64());
+    println!("{:<18} {:>8} {:>8} {:>8} {:>14}", "fork", "passed", "failed", "skipped", "expected-fail");
+    let mut total = Tally::default();
+    for (fork, t) in &tallies {
+        println!("{:<18} {:>8} {:>8} {:>8} {:>14}", format!("{:?}", fork), t.passed, t.failed, t.skipped, t.expected_fail);
+        total.passed += t.passed;
+        total.failed += t.failed;
+        total.skipped += t.skipped;
+        total.expected_fail += t.expected_fail;
+    }
+    println!("{:<18} {:>8} {:>8} {:>8} {:>14}", "TOTAL", total.passed, total.failed, total.skipped, total.expected_fail);
+    println!("(skipped = the case called a precompile this binary does not implement)");
+    for (n, count) in &skipped_by_precompile {
+        println!("  skipped because of precompile {:#04x}: {}", n, count);
+    }
+    for (name, n) in &ignored_forks {
+        println!("ignored post entries of fork {}: {}", name, n);
+    }
+    for n in &notes {
+        println!("note: {}", n);
+    }
+    if !expected_failures.is_empty() {
+        println!("expected failures (superseded devnet-5 EXTCODE* rule): {} cases in files {:?}", expected_failures.len(), EXPECTED_FAIL_FILES);
+    }
+    if !failures.is_empty() {
+        println!("FAILURES ({}):", failures.len());
+        for f in &failures {
+            println!("  {}", f);
+        }
+        std::process::exit(1);
+    }
+}
+
+#[cfg(test)]
+mod tests {
+    use super::*;
+
+    #[test]
+    fn hash_known_answers() {
+        assert_eq!(hex::encode(sha256(b"abc")), "ba7816bf8f01cfea414140de5dae2223b00361a396177a9cb410ff61f20015ad");
+        assert_eq!(hex::encode(sha256(b"")), "e3b0c44298fc1c149afbf4c8996fb92427ae41e4649b934ca495991b7852b855");
+        let long = vec![b'a'; 1000];
+        assert_eq!(hex::encode(sha256(&long)), "41edece42d63e8d9bf515a9ba6932e1c20cbc9f5a5d134645adb5db1b9737ea3");
+        assert_eq!(hex::encode(ripemd160(b"")), "9c1185a5c5e9fc54612808977ee8f548b2258d31");
+        assert_eq!(hex::encode(ripemd160(b"abc")), "8eb208f7e05d987a9b044a8e98c6b087f15a0bfc");
+        assert_eq!(
+            hex::encode(ripemd160(b"abcdefghijklmnopqrstuvwxyz")),
+            "f71c27109c692c1b56bbdceb5b9d2865b3708dbc"
+        );
+        assert_eq!(
+            hex::encode(ripemd160(b"12345678901234567890123456789012345678901234567890123456789012345678901234567890")),
+            "9b752e45573d4b39f4dbd3323cab82bf63326bfb"
+        );
+    }
+}
